@@ -107,6 +107,23 @@ def twin_run(kind_name, ops, seed, scratch):
                 tell(outstanding[op[1] % len(outstanding)])
             elif op[0] == "tell_new" and kind.rand_point:
                 tell(kind.rand_point(random.Random(op[1])))
+            elif op[0] == "retell" and told and kind.supports_foreign and op[1] % 4 == 0:
+                # a malformed result (the picker raises): the tell fails and must leave no trace, neither in the wrapped
+                # learner nor in extra_data (also when the point is already known)
+                keys = list(told)
+                cp = keys[op[1] % len(keys)]
+                p = next((q for q in list(ds.extra_data) if L.canon(q) == cp), None)
+                if p is not None:
+                    before = ({L.canon(k): L.canon(v) for k, v in ds.extra_data.items()}, L.observe(ds))
+                    try:
+                        ds.tell(p, {"not_y": 1.0})
+                        raised = False
+                    except Exception:
+                        raised = True
+                    after = ({L.canon(k): L.canon(v) for k, v in ds.extra_data.items()}, L.observe(ds))
+                    if raised and after != before:
+                        return ("failed_tell_leaves_trace", f"op {i}: a tell whose result the picker rejected changed "
+                                                            f"{'extra_data' if after[0] != before[0] else 'the wrapped learner'}")
             elif op[0] == "retell" and told and kind.supports_foreign:
                 keys = list(told)
                 # retell the same result for an already told point
